@@ -113,3 +113,13 @@ def _topk_demotion(v):
     d = _d(v)
     return v['monitor'] == 'channel-demotion' and d.get('by_reassignment_step') is True and \
         d.get('targets_valid') is True and d.get('chosen_is_promotion') is True
+
+
+@predicate('supernet-block-twice-different-resolution')
+def _sn_diffres(v):
+    """a choice block invoked twice at different resolutions, per-invocation metric: the observed
+    cost equals the model "every call site charged with the first call site's output shape"."""
+    d = _d(v)
+    return v['monitor'] in ('mix', 'bounds', 'hard-vs-export') and \
+        d.get('per_invocation') is True and d.get('diff_resolution_block') is True and \
+        d.get('matches_first_callsite_shape_model') is True
